@@ -148,8 +148,10 @@ ASSUME \A c \in Configs : WellFormed(c)
 VARIABLES L, game, lang, depth
 vars == <<L, game, lang, depth>>
 
-Init == /\ \E cl \in Classes : game = cl[1] /\ lang = cl[2]
-        /\ L \in Configs
+\* the pairs that only the generator's quick tier adds start from the two configurations with localised content
+\* and LZ streams (enough to tell a neighbouring game's localizer / compression format apart)
+ConfigsFor(cl) == IF Tier = "quick" /\ cl \notin ClassesQuick THEN {C6, C7} ELSE Configs
+Init == /\ \E cl \in Classes : game = cl[1] /\ lang = cl[2] /\ L \in ConfigsFor(cl)
         /\ depth = 0
 
 \* the model walks on with a reduced alphabet (the laws below quantify over the full one in every state)
